@@ -136,6 +136,9 @@ LONG_RESERVED = {'none': [], 'hit': ['sect105.html', 'sect0105.html'],
 LONG_EVENTS = [[None, None], ['a', None]]
 LONG_LEN = 120
 SPELLING_DEPTH = 3
+MEMO_MAX = 400000
+SHALLOW_DEPTH = 6
+STATE_CAP = 150000          # per configuration; a guard, not reached with the bounds above
 
 
 # ---------------------------------------------------------------------------------------------------
@@ -460,6 +463,7 @@ def _search(block):
     root_models = tuple((d, M.initial_state(cfg)) for d in order)
     spec = print_template(t, sp)
     memo = {}
+    intern = {}
     cfgh = hash(cfgid)
     frontier = [((), root_models, ())]
     seen = set()
@@ -499,7 +503,10 @@ def _search(block):
                     mk = (d, st, ei)
                     rs = memo.get(mk)
                     if rs is None:
-                        rs = memo[mk] = M.request(cfg, d, st, b)
+                        r, st2 = M.request(cfg, d, st, b)
+                        if len(memo) > MEMO_MAX:
+                            memo.clear()
+                        rs = memo[mk] = (r, intern.setdefault(st2, st2))    # equal states share one object
                     r, st2 = rs
                     if r == last:
                         new_models.append((d, st2))
@@ -538,6 +545,9 @@ def _search(block):
                 rep.states += 1
                 nxt.append((h2, tuple(new_models), tuple(obs)))
         frontier = nxt
+        if rep.states > STATE_CAP and level + 1 < depth:
+            rep.count('blocks_capped')
+            break
         if not frontier:
             rep.count('blocks_closed_before_depth_bound')      # every reachable state already expanded
             break
@@ -550,10 +560,17 @@ def run(tier, seed, rep):
     sp = seed % 3
     blocks = []
     combos = QUICK_COMBOS if quick else THOROUGH_COMBOS
+    shallow = {}
     for ti, t in enumerate(TEMPLATES):
+        d = depth
+        if t['alts'] and tup(t['alts'][0]) == A_IDNUM:
+            # a first alternative that spells both the request's id and $num makes every history a distinct
+            # state (5^n issued sets): these templates are searched to SHALLOW_DEPTH in both tiers
+            d = min(depth, SHALLOW_DEPTH)
+            shallow[print_template(t, 0)] = d
         for cs, rs in combos:
             blocks.append({'tindex': ti, 'template': t, 'charsub': cs, 'reserved': RESERVED[rs], 'spelling': sp,
-                           'depth': depth, 'events': events_for(t, tier, cs)})
+                           'depth': d, 'events': events_for(t, tier, cs)})
     # the other two spellings of every template (the seed only chooses which spelling gets the deep search)
     for ti, t in enumerate(TEMPLATES):
         for sp2 in range(3):
@@ -578,12 +595,13 @@ def run(tier, seed, rep):
         if rep.nviolations >= 25:
             aborted = True          # plenty of counterexamples: the remaining blocks add nothing to the verdict
             break
-    return {'exhaustive': not aborted, 'aborted_after_violations': aborted,
-            'bounds': {'history_length': depth, 'templates': len(TEMPLATES),
+    capped = rep.counters.get('blocks_capped', 0)
+    return {'exhaustive': not aborted and not capped, 'aborted_after_violations': aborted,
+            'bounds': {'history_length': depth, 'history_length_exceptions': shallow, 'templates': len(TEMPLATES),
                        'charsub_x_reserved': ['%s/%s' % c for c in combos],
                        'configurations': len(TEMPLATES) * len(combos),
                        'events_per_request_max': max(len(b['events']) for b in blocks),
                        'long_histories': {'configs': len(LONG_TEMPLATES) * 6, 'length': LONG_LEN},
                        'other_spellings': {'configs': len(TEMPLATES) * 2, 'history_length': SPELLING_DEPTH}},
-            'blocks': nblocks, 'spelling_variant': sp, 'max_depth_completed': depth, 'state_cap_hit': False,
+            'blocks': nblocks, 'spelling_variant': sp, 'max_depth_completed': depth, 'state_cap_hit': bool(capped),
             'floors': {'evaluations': 20000, 'issued': 10000, 'result_ValueError': 100, 'merged': 1000}}
